@@ -7,6 +7,8 @@
   Props/C19.lean imports this file).
 -/
 import DuckModel.Lemmas.ScriptRunLemmas
+import DuckModel.Lemmas.ScriptLoopConcat
+import DuckModel.Lemmas.ScriptLoopSetFromArray
 
 namespace Duck
 open Duck.Alias Duck.Coll Duck.ScriptRun Duck.Spec
@@ -85,6 +87,51 @@ theorem C19_script_map_contains_key_frame (args : List Str) (vars : Vars) (st : 
   | [] => rfl
   | [_] => rfl
   | a :: b :: rest => exact clear_of_callerClean _ _ hclean
+
+/-! ### scripts with a `for … in` loop (every variable the loop writes is under the prefix) -/
+
+theorem C19_script_concat_frame (args : List Str) (vars : Vars) (st : ScriptSt)
+    (hclean : ∀ k, underPrefix "scope::concat".toList k = true → Vars.get vars k = none)
+    (hstale : NoStaleFor "scope::concat".toList st.forStack)
+    (hcache : CacheOK st.forMeta "scope::concat::2".toList 4)
+    (hempty : args = [] → tget st.coll.tbl [] = none)
+    (hfuel : 3 * args.length + 6 ≤ scriptFuel) :
+    (runScriptCmd "concat".toList args vars st).2.1 = vars := by
+  obtain ⟨k, hk⟩ : ∃ k, scriptFuel = k + 3 * args.length + 6 := ⟨scriptFuel - (3 * args.length + 6), by omega⟩
+  unfold runScriptCmd
+  rw [hk, show scriptDepth = 5 + 1 from rfl, concat_runF 5 k args vars st hstale hcache
+    (by intro ha l
+        rw [show Vars.get vars cArgs = none from hclean cArgs (by decide)]
+        simp [hempty ha])]
+  exact clear_of_callerClean _ _ hclean
+
+theorem C19_script_set_from_array_frame (args : List Str) (vars : Vars) (st : ScriptSt)
+    (hclean : ∀ k, underPrefix "scope::set_from_array".toList k = true → Vars.get vars k = none)
+    (hfree : tget st.coll.tbl (Coll.handleName st.coll.next) = none)
+    (hfree1 : tget st.coll.tbl (Coll.handleName (st.coll.next + 1)) = none)
+    (hne : args.head? ≠ some (Coll.handleName st.coll.next))
+    (hok : ∀ a, args.head? = some a → ArgOK a = true)
+    (hstale : NoStaleFor "scope::set_from_array".toList st.forStack)
+    (hcI : IfCacheOK st.ifMeta "scope::set_from_array::1".toList 3)
+    (hcF : CacheOK st.forMeta "scope::set_from_array::6".toList 8)
+    (hfuel : ∀ a, args.head? = some a → 3 * arrLen st.coll.tbl a + 8 ≤ scriptFuel) :
+    (runScriptCmd "set_from_array".toList args vars st).2.1 = vars := by
+  cases args with
+  | nil =>
+    unfold runScriptCmd
+    rw [runScriptCmdF_entry _ _ _ _ _ sfa_findScript sfa_parses, aliasRun_few _ _ _ _ _ _ _ (by decide)]
+  | cons a rest =>
+    have hne' : a ≠ Coll.handleName st.coll.next := fun e => hne (by simp [e])
+    have hfu := hfuel a rfl
+    obtain ⟨k, hk⟩ : ∃ k, scriptFuel = k + 3 * arrLen st.coll.tbl a + 8 :=
+      ⟨scriptFuel - (3 * arrLen st.coll.tbl a + 8), by omega⟩
+    unfold runScriptCmd
+    rw [hk, show scriptDepth = 4 + 2 from rfl,
+      sfa_runF 4 k a rest vars st hfree hfree1 hne' (hok a rfl) hstale hcI hcF]
+    have := clear_of_callerClean sScope vars hclean
+    cases tget st.coll.tbl a with
+    | none => exact this
+    | some v => cases v <;> exact this
 
 /-- the temporary `::arguments` array is released and nothing else is allocated or released:
     stated with the results in `C12_script_*_correct` (table lookup-equal to the caller's). -/
